@@ -1,16 +1,10 @@
-(* Gen/Obligations.v — the tables regenerated from /repo on every run are the tables the
-   hand-written models are stated against.  A changed source table breaks one of these
-   kernel-checked equalities. *)
-From PFDL Require Import Expr.
-From PFDL.Gen Require Import Operators Events.
+(* Gen/ObligationsEvents.v — scheduling/event.py and PetriNetLogic.fire_event: the event
+   kinds, the fields Event.__eq__ compares and the table each kind is resolved through are the
+   ones NetModel.event / event_eqb / logic_fire_event implement. *)
+From PFDL.Gen Require Import Events.
 From Coq Require Import String List.
 Import ListNotations.
 
-(* helpers.parse_operator *)
-Lemma operators_tied : ops_from_source = expected_ops.
-Proof. reflexivity. Qed.
-
-(* scheduling/event.py: the three event kinds and the fields Event.__eq__ compares *)
 Lemma event_constants_tied :
   event_constants =
   [ ("START_PRODUCTION_TASK", "start_production_task"); ("SET_PLACE", "loc_started");
@@ -20,7 +14,6 @@ Proof. reflexivity. Qed.
 Lemma event_eq_fields_tied : event_eq_fields = [ "event_type"; "data" ]%string.
 Proof. reflexivity. Qed.
 
-(* petri_net/logic.py::fire_event: which table each event kind is resolved through *)
 Lemma fire_event_dispatch_tied :
   fire_event_dispatch =
   [ ("START_PRODUCTION_TASK", ResolveStartPlace); ("SET_PLACE", ResolvePlaceUuid);
